@@ -341,7 +341,11 @@ class Policy:
             return True
         if self.level == "none":
             # only explicitly named helpers (classification functions that build no TwoFloat)
-            return callee.ident() in self.inline_extra and not self.has_loop_or_recursion(callee) and depth < self.max_depth
+            if callee.ident() in self.inline_extra:
+                return not self.has_loop_or_recursion(callee) and depth < self.max_depth
+            # (on request) private free helpers of the crate: a shared `fn widen<N: Into<TwoFloat>>(n: N)` behind ten one-line methods
+            return self.inline_private and not callee.reachable and callee.kind != "Closure" and callee.trait is None and callee.self_ty is None \
+                and not self.has_loop_or_recursion(callee) and depth < self.max_depth
         if callee.kind == "Closure":
             # a closure called directly is private code of its parent (one with a loop stays a call)
             return not self.has_loop_or_recursion(callee)
@@ -1607,6 +1611,13 @@ class Exec:
                     and all(is_const(x) and x[1] in INT_BITS for x in (rng[2], rng[3], item)) and rng[2][1] == item[1] == rng[3][1]:
                 ty_ = item[1]
                 return mk_const("bool", int(to_signed(ty_, cint(rng[2])) <= to_signed(ty_, cint(item)) <= to_signed(ty_, cint(rng[3]))))
+        if base in ("core::f64::<impl f64>::is_sign_positive", "core::f64::<impl f64>::is_sign_negative") and len(args) == 1:
+            # the sign bit of |x| is clear (for every x, NaN included: fabs is a bit operation); of a constant: read off
+            x_ = self.deref_value(st, args[0])
+            if tag(x_) == "call" and x_[1] == "libm::fabs" and len(x_) == 3:
+                return mk_const("bool", int(base.endswith("positive")))
+            if is_const(x_) and x_[1] == "f64":
+                return mk_const("bool", int((cint(x_) >> 63 == 0) == base.endswith("positive")))
         mp_ = re.match(r"^core::num::<impl (\w+)>::pow$", base)
         if mp_ and mp_.group(1) in INT_BITS and len(args) == 2:
             ty_ = mp_.group(1); b_ = self.deref_value(st, args[0]); e_ = self.deref_value(st, args[1])
